@@ -12,6 +12,7 @@ ValidationResult) are VALIDATED, not proved: reader(writer(x)) == x and equal ki
 import dataclasses
 import itertools
 import re
+import traceback
 import warnings
 from fractions import Fraction
 
@@ -1075,6 +1076,164 @@ def gen_htn(rng, i):
     return htn
 
 
+# ------------------------------------------------------------------- problems for the CompilerResult round trip
+def type_is_under(t, anc):
+    """t is anc or a (transitive) subtype of it — own walk over the `father` links of the user types."""
+    while t is not None:
+        if t == anc:
+            return True
+        t = t.father
+    return False
+
+
+def all_ground_instances(problem):
+    """EVERY ground instance of every action of `problem`, enumerated from the declarations only (no use of
+    domain_size/domain_item/problem.objects(t), which is what the writer uses): the values of a user-type parameter
+    are the objects whose type is the parameter's type OR ANY SUBTYPE of it, in declaration order; a bounded int
+    parameter ranges over lb..ub; a bool parameter over False, True.  An action with a parameter of any other type
+    has no finite set of instances (None is yielded once for it)."""
+    from unified_planning.plans import ActionInstance
+    em = problem.environment.expression_manager
+    for a in problem.actions:
+        doms = []
+        for q in a.parameters:
+            t = q.type
+            if t.is_user_type():
+                doms.append([em.ObjectExp(o) for o in problem.all_objects if type_is_under(o.type, t)])
+            elif t.is_int_type() and t.lower_bound is not None and t.upper_bound is not None:
+                doms.append([em.Int(v) for v in range(t.lower_bound, t.upper_bound + 1)])
+            elif t.is_bool_type():
+                doms.append([em.FALSE(), em.TRUE()])
+            else:
+                doms = None
+                break
+        if doms is None:
+            yield None
+            continue
+        for ps in itertools.product(*doms):
+            yield ActionInstance(a, tuple(ps))
+
+
+def gen_typed_classical(rng, i):
+    """A small classical problem whose actions stay LIFTED under the lifted compilers, over a user-type HIERARCHY
+    (flat / chain A>B>C / tree A>{B,C}, plus an unrelated type D) with objects of the strict subtypes, so that
+    objects of a subtype are arguments of parameters declared with a supertype.  Conditions contain negations,
+    disjunctions and quantifiers, effects are conditional / universally quantified, so that each of the
+    conditional-effects / negative-conditions / disjunctive-conditions / quantifiers removers (and the grounder) has
+    work to do.  Returns (problem, shape name)."""
+    import unified_planning as up
+    from unified_planning.shortcuts import (UserType, Fluent, BoolType, IntType, Object, Problem, InstantaneousAction,
+                                            Variable, Not, And, Or, Equals, Forall, Exists, LE)
+    shape = ["chain", "tree", "flat", "chain2"][i % 4]
+    A = UserType("A")
+    D = UserType("D")
+    if shape == "chain":
+        B = UserType("B", A)
+        C = UserType("C", B)
+    elif shape == "tree":
+        B = UserType("B", A)
+        C = UserType("C", A)
+    elif shape == "chain2":
+        B = UserType("B", A)
+        C = UserType("C", D)
+    else:
+        B = UserType("B")
+        C = UserType("C")
+    types = [A, B, C, D]
+    p = Problem("typed%d" % i)
+    objs = []
+    for t in types:
+        # a type may have no object of exactly that type (its values are then only those of its subtypes, or none)
+        for j in range(rng.choice([0, 1, 1, 1, 1, 2, 2, 2])):
+            objs.append(Object("%s%d" % (t.name.lower(), j), t))
+    if shape != "flat" and not any(o.type in (B, C) and o.type.father is not None for o in objs):
+        objs.append(Object("b9", B))
+    rng.shuffle(objs)          # declaration order is not grouped by type
+    p.add_objects(objs)
+    flu = [Fluent("flag"), Fluent("p", BoolType(), x=A), Fluent("q", BoolType(), x=rng.choice([A, B])),
+           Fluent("r", BoolType(), x=rng.choice([A, C]), y=D)]
+    for f in flu:
+        p.add_fluent(f, default_initial_value=rng.random() < 0.3)
+    cnt = None
+    if rng.random() < 0.4:
+        cnt = Fluent("cnt", IntType(0, 3))
+        p.add_fluent(cnt, default_initial_value=rng.randint(0, 3))
+    em = p.environment.expression_manager
+    # quantified variables range over types the problem DECLARES (types of its objects/fluent parameters and their
+    # ancestors).  A type that occurs only as the type of a quantified variable is not in problem.user_types, the
+    # writer does not write it and the reader raises 'UserType C is not defined' (a separate defect of the unchanged
+    # library, reported to the coordinator; see notes/C20.md) - kept out of this family.
+    vtypes = [t for t in types if p.has_type(t.name)]
+
+    def arg(t, params):
+        pool = [q for q in params if type_is_under(q.type, t)] + [em.ObjectExp(o) for o in objs if type_is_under(o.type, t)]
+        return rng.choice(pool) if pool else None
+
+    def atom(params):
+        f = rng.choice(flu)
+        args = [arg(s.type, params) for s in f.signature]
+        if any(x is None for x in args):
+            return flu[0]()
+        return f(*args)
+
+    def cond(params, d=2):
+        c = rng.random()
+        if d == 0 or c < 0.2:
+            return atom(params)
+        if c < 0.4:
+            return Not(atom(params))
+        if c < 0.55:
+            return Or(cond(params, d - 1), cond(params, d - 1))
+        if c < 0.65:
+            return And(atom(params), Not(atom(params)))
+        if c < 0.8:
+            v = Variable("v%d" % d, rng.choice(vtypes))
+            return rng.choice([Exists, Forall])(Or(cond(params + [em.VariableExp(v)], d - 1), atom(params)), v)
+        if c < 0.9 and len(params) >= 2 and (type_is_under(params[0].type, params[1].type) or type_is_under(params[1].type, params[0].type)):
+            return Not(Equals(params[0], params[1]))
+        if cnt is not None:
+            return LE(cnt, rng.randint(0, 3))
+        return atom(params)
+
+    for k in range(rng.randint(1, 3)):
+        sig = {}
+        for j in range(rng.randint(1, 3)):
+            # mostly supertypes, so that the objects of the subtypes are among the values of the parameter
+            sig["x%d" % j] = rng.choice([A, A, A, B, C, D] if shape != "flat" else types)
+        if rng.random() < 0.25:
+            sig["n"] = IntType(rng.randint(0, 1), 2)
+        a = InstantaneousAction("act%d" % k, **sig)
+        params = [em.ParameterExp(q) for q in a.parameters if q.type.is_user_type()]
+        for _ in range(rng.randint(0, 2)):
+            a.add_precondition(cond(params))
+        for _ in range(rng.randint(1, 3)):
+            c = rng.random()
+            try:
+                if c < 0.45:
+                    a.add_effect(atom(params), rng.random() < 0.6)
+                elif c < 0.8:
+                    a.add_effect(atom(params), rng.random() < 0.6, condition=cond(params, 1))
+                else:
+                    v = Variable("w", rng.choice(vtypes))
+                    ve = em.VariableExp(v)
+                    f = rng.choice([g for g in flu[1:3]])
+                    if type_is_under(v.type, f.signature[0].type):
+                        a.add_effect(f(ve), True, condition=rng.choice([em.TRUE(), Not(atom(params + [ve]))]), forall=[v])
+                    else:
+                        a.add_effect(flu[0](), True)
+            except (up.exceptions.UPException, AssertionError):
+                pass
+        if not a.effects:
+            a.add_effect(flu[0](), True)
+        p.add_action(a)
+    # half of the problems have conjunctive goals only (a disjunctive goal makes the disjunctive-conditions remover add
+    # a fake goal action that maps back to None, and the writer rejects such a result: outside the property)
+    simple_goals = rng.random() < 0.5
+    for _ in range(rng.randint(1, 2)):
+        p.add_goal(rng.choice([atom([]), Not(atom([]))]) if simple_goals else cond([], 2))
+    return p, shape
+
+
 # ---------------------------------------------------------------------------------------------------- histories
 def variant_problem(env, rng, tag):
     """One 'version of a client's model': the SAME identifiers every time (problem, types, objects, fluents,
@@ -1272,6 +1431,14 @@ def history_objects(ctx):
     return {"objects": objects, "stats": stats}
 
 
+def safe_str(y, limit=3000):
+    """str(y) of an object READ BACK (its __str__ may raise if the object is malformed)."""
+    try:
+        return str(y)[:limit]
+    except Exception as e:
+        return "<str() of the object read back raised %s: %s>" % (type(e).__name__, str(e)[:200])
+
+
 def normalise_result(x):
     """None == empty for the optional containers of a result object (proto3 cannot tell them apart)."""
     d = {}
@@ -1322,14 +1489,27 @@ def whole_objects(ctx):
             ctx.fail("oracle", "C20 whole object %s (%s): the reader raised %s: %s" % (type(x).__name__, label, type(e).__name__, str(e)[:200]),
                      ["whole-object", type(x).__name__] + tags, payload, True)
             return None
-        eq = (x == y) if equal is None else equal(x, y)
-        if eq and hasattr(x, "kind") and isinstance(x, up.model.AbstractProblem) and x.kind != y.kind:
+        # everything that touches the object READ BACK runs under this guard: an exception raised by it (by its
+        # __eq__/kind/__str__, or by a callable it carries) means it is not usable like the original, which is a
+        # failure of the property on this input, not a crash of the check
+        try:
+            eq = (x == y) if equal is None else equal(x, y)
+            kind_differs = bool(eq and isinstance(x, up.model.AbstractProblem) and x.kind != y.kind)
+            extra = known(x, y) if (known and not eq) else []
+            if eq and isinstance(x, up.model.AbstractProblem):
+                hash(y)
+        except Exception as e:
+            ctx.fail("oracle", "C20 whole object %s (%s): using the object read back (comparison with the original) raised %s: %s"
+                     % (type(x).__name__, label, type(e).__name__, str(e)[:200]),
+                     ["whole-object", type(x).__name__, "read-back-object-raised", "raised:" + type(e).__name__] + tags,
+                     dict(payload, read_back=safe_str(y), traceback=traceback.format_exc()[-1500:]), True)
+            return None
+        if kind_differs:
             ctx.fail("oracle", "C20 problem %s: equal problems but different kinds" % label, ["whole-object", "kind"] + tags,
-                     dict(payload, kind=str(x.kind), kind_read=str(y.kind)), True)
+                     dict(payload, kind=str(x.kind), kind_read=safe_str(y.kind)), True)
         elif not eq:
-            extra = known(x, y) if known else []
             ctx.fail("oracle", "C20 whole object %s (%s): reader(writer(x)) != x" % (type(x).__name__, label),
-                     ["whole-object", type(x).__name__] + tags + extra, dict(payload, read_back=str(y)[:3000]), True)
+                     ["whole-object", type(x).__name__] + tags + extra, dict(payload, read_back=safe_str(y)), True)
         if len(samples) < 2:
             samples.append(payload)
         return y
@@ -1341,7 +1521,13 @@ def whole_objects(ctx):
         y = roundtrip(p, "example:" + name, ["example"])
         if y is None:
             continue
-        if p == y and hash(p) != hash(y):
+        try:
+            hash_differs = p == y and hash(p) != hash(y)
+        except Exception as e:
+            hash_differs = False
+            ctx.fail("oracle", "C20 example %s: ==/hash of the problem read back raised %s: %s" % (name, type(e).__name__, str(e)[:200]),
+                     ["whole-object", "hash", "read-back-object-raised", "raised:" + type(e).__name__], {"label": name, "object": str(p)[:3000]}, True)
+        if hash_differs:
             ctx.fail("oracle", "C20 example %s: equal problems with different hashes" % name, ["whole-object", "hash"], {"label": name}, True)
         for pl in list(ex.valid_plans) + list(ex.invalid_plans):
             roundtrip(pl, "example-plan:" + name, ["example", "plan"], read_args=(p,))
@@ -1397,40 +1583,136 @@ def whole_objects(ctx):
             for lg in ([], logs[:2], logs):
                 roundtrip(ValidationResult(st, "validator", lg, metrics=metrics), "vr:" + st.name, ["result"])
 
-    # ---- compiler results (extensional equality)
-    def ground_instances(problem):
-        for a in problem.actions:
-            doms = [[domain_item(problem, q.type, j) for j in range(domain_size(problem, q.type))] for q in a.parameters]
-            for ps in itertools.product(*doms):
-                yield ActionInstance(a, tuple(ps))
+    # ---- compiler results (extensional equality: the fields are callables)
+    # reader(writer(result)) must have an equal compiled problem / engine / metrics / log and a map_back_action_instance
+    # that answers like the original one on EVERY ground instance of every compiled action.  The instances are
+    # enumerated by all_ground_instances (objects of the parameter's type and of all its SUBTYPES), independently of
+    # the writer's own enumeration; the result read back is queried like a client would (instance built on the action
+    # of the compiled problem READ BACK).  Whatever the read-back result raises is a failure of the property.
+    CR_MAX_INSTANCES = 3000
 
-    def cr_equal(x, y):
-        if not (x.problem == y.problem and x.engine_name == y.engine_name and (x.metrics or None) == (y.metrics or None)
-                and (x.log_messages or None) == (y.log_messages or None)):
-            return False
-        for ai in ground_instances(x.problem):
-            a, b = x.map_back_action_instance(ai), y.map_back_action_instance(ai)
-            if not (a.action == b.action and a.actual_parameters == b.actual_parameters):
-                return False
-        return True
-    cr_sources = ["robot", "hierarchical_blocks_world", "matchcellar", "basic_conditional", "robot_fluent_of_user_type",
-                  "robot_loader_adv", "basic_exists", "basic_forall"] if ctx.quick else [k for k in examples]
+    def same_instance(a, b):
+        if a is None or b is None:
+            return a is None and b is None
+        return a.action == b.action and tuple(a.actual_parameters) == tuple(b.actual_parameters)
+
+    def roundtrip_cr(res, orig, label, tags):
+        instances = list(itertools.islice(all_ground_instances(res.problem), CR_MAX_INSTANCES))
+        if len(instances) >= CR_MAX_INSTANCES:
+            bump("cr_skipped_too_many_instances")
+            return
+        w, r = ProtobufWriter(), ProtobufReader()
+        try:
+            m = w.convert(res)
+        except Exception as e:
+            bump("writer_rejected:CompilerResult")
+            bump("writer_rejected_reason:%s:%s" % (type(e).__name__, re.sub(r"[^A-Za-z ]+", "#", str(e))[:60]))
+            return
+        n["objects"] += 1
+        bump("CompilerResult")
+        seen.add(("CompilerResult", label, repr(res.problem)[:2000]))
+        base = ["whole-object", "CompilerResult"] + tags
+        payload = {"label": label, "class": "CompilerResult", "engine": res.engine_name,
+                   "original_problem": str(orig)[:5000], "compiled_problem": str(res.problem)[:5000],
+                   "how_to_replay": "compile original_problem with the compiler `engine`, ProtobufReader().convert("
+                                    "ProtobufWriter().convert(result), original_problem), call map_back_action_instance "
+                                    "of the result read back on `instance`"}
+        try:
+            y = r.convert(m, orig)
+        except Exception as e:
+            ctx.fail("oracle", "C20 CompilerResult (%s): the reader raised %s: %s" % (label, type(e).__name__, str(e)[:200]),
+                     base + ["reader-raised"], payload, True)
+            return
+        try:
+            diffs = [fld for fld, same in (("problem", res.problem == y.problem), ("engine_name", res.engine_name == y.engine_name),
+                                           ("metrics", (res.metrics or None) == (y.metrics or None)),
+                                           ("log_messages", (res.log_messages or None) == (y.log_messages or None))) if not same]
+            if "problem" not in diffs and res.problem.kind != y.problem.kind:
+                diffs.append("problem.kind")
+        except Exception as e:
+            ctx.fail("oracle", "C20 CompilerResult (%s): comparing the fields of the result read back raised %s: %s"
+                     % (label, type(e).__name__, str(e)[:200]),
+                     base + ["read-back-object-raised", "raised:" + type(e).__name__],
+                     dict(payload, traceback=traceback.format_exc()[-1500:]), True)
+            return
+        if diffs:
+            ctx.fail("oracle", "C20 CompilerResult (%s): the result read back differs from the original in %s" % (label, ", ".join(diffs)),
+                     base + ["field:" + d for d in diffs], dict(payload, read_back_problem=safe_str(getattr(y, "problem", None), 5000)), True)
+        mism = []
+        checked = with_sub = 0
+        for ai in instances:
+            if ai is None:
+                bump("cr_action_without_finite_instances")
+                continue
+            try:
+                expected = res.map_back_action_instance(ai)
+            except Exception:
+                bump("cr_original_map_back_raised")      # not an answer of the original: nothing to compare with
+                continue
+            checked += 1
+            sub = any(v.is_object_exp() and v.object().type != q.type for q, v in zip(ai.action.parameters, ai.actual_parameters))
+            with_sub += 1 if sub else 0
+            how, got = None, None
+            try:
+                ai_y = ActionInstance(y.problem.action(ai.action.name), tuple(ai.actual_parameters))
+                got = y.map_back_action_instance(ai_y)
+                if not same_instance(expected, got):
+                    how = "map-back-differs"
+                got = safe_str(got, 300)
+            except Exception as e:
+                how, got = "map-back-raised:" + type(e).__name__, "raised %s: %s" % (type(e).__name__, str(e)[:200])
+            if how:
+                mism.append({"instance": str(ai), "expected": str(expected), "got": got, "how": how, "subtype_argument": sub})
+        stats["cr_instances_compared"] = stats.get("cr_instances_compared", 0) + checked
+        stats["cr_instances_with_subtype_argument"] = stats.get("cr_instances_with_subtype_argument", 0) + with_sub
+        if with_sub and res.problem.actions and any(a.parameters for a in res.problem.actions):
+            bump("cr_lifted_results_with_subtype_arguments")
+        if mism:
+            f0 = mism[0]
+            shape_tags = sorted(set(x["how"] for x in mism))
+            if all(x["subtype_argument"] for x in mism):
+                shape_tags.append("only-instances-with-subtype-argument")
+            ctx.fail("oracle", "C20 CompilerResult (%s): map_back_action_instance of the result read back, called on the ground instance "
+                               "%s of a compiled action, gives: %s; the original result gives: %s.  The two disagree on %d of the %d "
+                               "ground instances of the compiled actions%s"
+                     % (label, f0["instance"], f0["got"], f0["expected"], len(mism), checked,
+                        " (each of them has an object of a strict subtype of the parameter's type as argument)"
+                        if "only-instances-with-subtype-argument" in shape_tags else ""),
+                     base + ["map-back"] + shape_tags,
+                     dict(payload, instance=f0["instance"], expected=f0["expected"], got=f0["got"],
+                          instances_compared=checked, instances_failing=len(mism), failing=mism[:12]), True)
+        if len(samples) < 3:
+            samples.append({"label": label, "class": "CompilerResult", "instances_compared": checked,
+                            "instances_with_subtype_argument": with_sub})
+
     kinds = [CompilationKind.GROUNDING, CompilationKind.CONDITIONAL_EFFECTS_REMOVING, CompilationKind.NEGATIVE_CONDITIONS_REMOVING,
              CompilationKind.QUANTIFIERS_REMOVING, CompilationKind.DISJUNCTIVE_CONDITIONS_REMOVING]
-    for name in cr_sources:
-        if name not in examples:
-            continue
-        p = examples[name].problem
+
+    def compile_and_roundtrip(p, label, tags):
         for ck in kinds:
             try:
                 with Compiler(problem_kind=p.kind, compilation_kind=ck) as c:
                     res = c.compile(p, ck)
-                if sum(1 for _ in itertools.islice(ground_instances(res.problem), 3000)) >= 3000:
-                    continue
             except Exception:
                 bump("compiler_unavailable")
                 continue
-            roundtrip(res, "compiler:%s:%s" % (name, ck.name), ["result", "compiler-result"], read_args=(p,), equal=cr_equal)
+            roundtrip_cr(res, p, "compiler:%s:%s" % (label, ck.name), ["result", "compiler-result", "compilation:" + ck.name] + tags)
+
+    cr_sources = ["robot", "hierarchical_blocks_world", "matchcellar", "basic_conditional", "robot_fluent_of_user_type",
+                  "robot_loader_adv", "basic_exists", "basic_forall"] if ctx.quick else [k for k in examples]
+    for name in cr_sources:
+        if name in examples:
+            compile_and_roundtrip(examples[name].problem, name, ["example"])
+    # generated classical problems over a user-type hierarchy, objects of strict subtypes used as action arguments
+    for i in range(12 if ctx.quick else 150):
+        try:
+            p, shape = gen_typed_classical(rng, i)
+        except (up.exceptions.UPException, AssertionError):
+            bump("gen_typed_classical_error")
+            continue
+        bump("typed_classical:" + shape)
+        roundtrip(p, "generated-typed:%d" % i, ["generated", "typed-classical", "hierarchy:" + shape])
+        compile_and_roundtrip(p, "generated-typed:%d" % i, ["generated", "typed-classical", "hierarchy:" + shape])
 
     # ---- explicit probes for the OPEN findings (each must behave exactly as recorded, anything else is a violation)
     def collapse_only(norm):
